@@ -21,4 +21,11 @@ def joinSp (l : List String) : String := String.intercalate " " l
 def fnOfList {β : Type} (d : β) (l : List β) : Int → β := fun i => if i < 0 then d else (l.getD i.toNat d)
 def fnOfArray {β : Type} (d : β) (a : Array β) : Int → β := fun i => if i < 0 then d else (a.getD i.toNat d)
 
+/-- float arrays travel as decimal UInt64 bit patterns -/
+def floatArr? (l : List String) : Option (Array Float) := (l.mapM ofBits?).map List.toArray
+def showFloats (a : Array Float) : String := joinSp (a.toList.map fbits)
+/-- split a token list: first `n` tokens and the rest (none if too short) -/
+def takeN? (n : Nat) (l : List String) : Option (List String × List String) :=
+  if l.length < n then none else some (l.take n, l.drop n)
+
 end Drv
